@@ -21,7 +21,7 @@ def std_run(ctx, spec):
         b = bins[(j["harness"], tuple(j.get("flags", ())), bool(j.get("sanitize", False)))]
         binaries[os.path.basename(b)] = b
         D.run_symx(ctx, b, j["pattern"], workers=j.get("workers", D.NCPU), deadline=j.get("deadline"), profile=j.get("profile"),
-                   cap=j.get("cap"), max_paths=j.get("max_paths"), label=j.get("label"))
+                   cap=j.get("cap"), max_paths=j.get("max_paths"), label=j.get("label"), env=j.get("env"))
     D.collect(ctx, spec.get("policy", {}))
     post = spec.get("post")
     if post:
@@ -72,4 +72,55 @@ SPECS["C18"] = dict(
                 "path of the real argsort/SortEigenvalue code the solver proves permutation + ordering + BothEnds interleaving; complete over "
                 "values (ties included) within the length bound"),
     level_note="lengths beyond the bound are not covered; trusted: g++/libstdc++ std::sort executing natively, z3, the symx term builder",
+)
+
+
+# ------------------------------------------------------------------------------------------------
+# C08: shifted QR helpers
+def c08_jobs(tier):
+    full = {"VERIF_DEFLATED_OBLIGATIONS": "1", "VERIF_C08_FIRSTCOL": "1"}
+    if tier == "quick":
+        return [dict(harness="c08_rot", pattern=r"^rotation/|^dsqr/stable_", label="leaf kernels (double profile)", deadline=240),
+                dict(harness="c08_refl", pattern=r".", label="compute_reflector with leaf contracts", deadline=120),
+                dict(harness="c08_qr", pattern=r"^hess/n[23]/|^tridiag/n[23]/|^tridiag-exact-shift/n2", label="UpperHessenbergQR/TridiagQR n<=3", deadline=280),
+                dict(harness="c08_dsqr", pattern=r"^dsqr/n3/zero|^dsqr/n4/zero02|^dsqr/n4/zero1", label="DoubleShiftQR deflated blocks", deadline=200)]
+    return [dict(harness="c08_rot", pattern=r"^rotation/|^dsqr/stable_", label="leaf kernels (double)", deadline=600),
+            dict(harness="c08_rot", pattern=r"^rotation/|^dsqr/stable_", label="leaf kernels (float)", profile="float", deadline=600),
+            dict(harness="c08_rot", pattern=r"^rotation/|^dsqr/stable_", label="leaf kernels (long double)", profile="longdouble", deadline=600),
+            dict(harness="c08_refl", pattern=r".", label="compute_reflector with leaf contracts", deadline=300),
+            dict(harness="c08_qr", pattern=r"^hess/|^tridiag/n[234]/|^tridiag-exact-shift/", label="UpperHessenbergQR n<=5 / TridiagQR n<=4", deadline=2400, env=full,
+                 cap=(20, 120)),
+            dict(harness="c08_dsqr", pattern=r"^dsqr/n[34]/", label="DoubleShiftQR n<=4 incl. unreduced blocks", deadline=3000, env=full, cap=(20, 120))]
+
+
+SPECS["C08"] = dict(
+    run=std_run, jobs=c08_jobs,
+    explanation=("Real code of UpperHessenbergQR, TridiagQR and DoubleShiftQR executed on fully symbolic Hessenberg / tridiagonal matrices and shifts "
+                 "(entries below the sub-diagonal are independent junk symbols that must not influence any result). Compositional: (1) the leaf kernels "
+                 "compute_rotation/stable_scaling, stable_norm3, stable_scaling(x1,x2,x3) are executed whole on symbolic inputs, all paths, against their "
+                 "contract (c^2+s^2=1, r=cx-sy>=0, sx+cy=0, special cases exact; r^2=sum x_i^2; unit, parallel, same direction) with the Taylor branches "
+                 "allowed a relative tolerance 1e-4*eps; (2) compute_reflector is executed with those leaves replaced by their contracts and proven to yield a unit "
+                 "u with (I-2uu')x parallel to e1, nr as documented; (3) the class-level code (compute, matrix_R, matrix_QtHQ, apply_QY/QtY/YQ/YQt, "
+                 "update_block, apply_PX/XP) is executed with the rotation / reflector replaced by that contract, and z3 proves entry by entry: Q'Q=I, R upper "
+                 "triangular, QR=H-sI (after the documented deflation of negligible sub-diagonals), matrix_QtHQ = Q'HQ with Hessenberg / symmetric tridiagonal "
+                 "shape, every apply method equals the explicit product, DoubleShiftQR: Q orthogonal, Q'HQ Hessenberg and equal to matrix_QtHQ, block splitting at zero "
+                 "sub-diagonals, exact-eigenvalue shift deflates the last row (n=2; n=3 thorough)."),
+    functions=["UpperHessenbergQR<S>::compute_rotation, stable_scaling, compute, matrix_R, matrix_QtHQ, apply_QY/QtY (vector+matrix), apply_YQ, apply_YQt",
+               "TridiagQR<S>::compute, matrix_R, matrix_QtHQ", "DoubleShiftQR<S>::stable_norm3, stable_scaling, compute_reflector, update_block, apply_PX (both), apply_XP, "
+               "compute, matrix_QtHQ, apply_QtY, apply_YQ"],
+    bounds={"quick": {"UpperHessenbergQR": "n=2,3 (+ zero sub-diagonal patterns)", "TridiagQR": "n=2,3 (+ zero patterns), all deflation paths", "DoubleShiftQR": "n=3 and n=4 with at least one exact-zero "
+                      "sub-diagonal (blocks of size 1-2); unreduced 3x3/4x4 blocks (Householder bulge chase) are thorough-tier only", "leaf kernels": "all paths, double thresholds",
+                      "skipped": "result-deflation tolerance obligations and DoubleShiftQR first-column obligations (thorough only)"},
+            "thorough": {"UpperHessenbergQR": "n<=5", "TridiagQR": "n<=4", "DoubleShiftQR": "n<=4 incl. unreduced", "leaf kernels": "float/double/long double thresholds"}},
+    outside=[ROUNDING, "the underflow regime: reflector inputs with 0 < |x| < ~1e-200 (near_0 thresholds) are excluded by assumption", "n beyond the bound",
+             "the Taylor branches are accepted with relative tolerance 1e-4*eps and callers assume the exact contract"],
+    stubs=["class-level runs: compute_rotation := fresh (c,s,r) with c^2+s^2=1, r=cx-sy>=0, sx+cy=0 (exact special case when y is structurally 0)",
+           "DoubleShiftQR class-level runs: compute_reflector := fresh unit u with x2=2u1(u.x), x3=2u2(u.x); nr by exact-zero tests",
+           "compute_reflector run: stable_norm3, stable_scaling3, Eigen::numext::hypot := exact sqrt contracts"],
+    assumptions=["exact real arithmetic", "Eigen::numext::hypot returns sqrt(x^2+y^2)"],
+    policy=dict(events="violation", allow_cut=False),
+    technique="symbolic execution of the real QR templates on symbolic matrices (contracts for leaf kernels, each checked on the real leaf); z3/cvc5 NRA verdict per matrix entry",
+    level_text=("bounded symbolic verification in exact real arithmetic: all Hessenberg/tridiagonal matrices and shifts of size n<=3 (thorough: up to 5/4/4), every path of "
+                "the real code; algebraic identities proven entry-wise by the SMT solver; rounding-level clauses are outside the claim"),
+    level_note="compositional via kernel contracts; rounding, underflow thresholds and n above the bound not covered; trusted: g++, Eigen, z3/cvc5, symx",
 )
